@@ -594,6 +594,12 @@ func (e *tokEnv) runBlock(pending []chain.M, w *chain.TraceWriter) {
 	}
 	for i, ev := range pending {
 		r := res.Txs[i]
+		if r.Aborted {
+			// member of a multi-message transaction that failed as a whole (chain.BundlePct):
+			// whatever it did was rolled back; the specification knows no such event and
+			// treats it as a rejection without effect
+			ev["name"] = "TxFailed"
+		}
 		ev["ok"] = r.OK
 		ev["panic"] = r.Panic
 		if chain.Str(ev, "name") == "SwapFee" && r.OK {
